@@ -34,6 +34,7 @@ var classKeywords = map[string][]string{
 	"bad-field":    {"is not a field of"},
 	"prevented":    {"prevented from injecting"},
 	"bad-value":    {"too complex", "may not be an interface value", "does not implement", "can't be used", "unexported", "not declared in package scope"},
+	"not-provider": {"is not a provider or a provider set"},
 	"any":          {""},
 }
 
